@@ -8,7 +8,18 @@ import shutil
 import subprocess
 import sys
 import tempfile
+import threading
+import zlib
 from concurrent.futures import ThreadPoolExecutor
+
+
+def _feed(fifo, content):
+    """Writer end of a FIFO: blocks until somebody opens it for reading."""
+    try:
+        with open(fifo, "wb") as f:
+            f.write(content)
+    except OSError:
+        pass
 
 
 def run_one(jp, spec, base):
@@ -19,15 +30,73 @@ def run_one(jp, spec, base):
                 f.write(bytes.fromhex(hx))
         argv = [jp] + [a.replace("{DIR}", d) for a in spec["argv"]]
         stdin = bytes.fromhex(spec["stdin_hex"]) if spec["input_channel"] == "stdin" else b""
+        # The same bytes reach jp over different TRANSPORTS, chosen per invocation: the text files as
+        # regular files, FIFOs (what `-f <(cmd)` gives), symlinks, or /dev/stdin; standard input as a
+        # pipe, a regular file, or a regular file whose descriptor is already positioned behind a header
+        # that an earlier reader consumed. What must happen does not depend on the transport.
+        h = zlib.crc32(spec["id"].encode())
+        transports = []
+        writers = []
+        stdin_file = None
+        for i, a in enumerate(argv):
+            name = os.path.basename(a)
+            if i == 0 or name not in spec["files"] or not a.startswith(d):
+                continue
+            content = bytes.fromhex(spec["files"][name])
+            t = (h >> (3 * len(transports))) % 6
+            if t == 1 and len(content) < 60000:
+                fifo = a + ".fifo"
+                os.mkfifo(fifo)
+                th = threading.Thread(target=_feed, args=(fifo, content), daemon=True)
+                th.start()
+                writers.append((fifo, th))
+                argv[i] = fifo
+                transports.append("fifo")
+            elif t == 2:
+                os.symlink(a, a + ".link")
+                argv[i] = a + ".link"
+                transports.append("symlink")
+            elif t == 3 and name == "input.json" and spec["input_channel"] != "stdin":
+                argv[i] = ["/dev/stdin", "/proc/self/fd/0"][(h >> 9) % 2]
+                stdin = content
+                transports.append("dev-stdin")
+            else:
+                transports.append("file")
+        st = (h >> 12) % 4
         try:
-            r = subprocess.run(argv, input=stdin, capture_output=True, timeout=60)
+            if st in (1, 2) and (spec["input_channel"] == "stdin" or "dev-stdin" in transports):
+                # (a path such as /dev/stdin re-opens the file at offset 0: the positioned variant is only
+                # meaningful when jp reads its inherited descriptor)
+                hdr = b"# header line consumed by an earlier reader\n" if st == 2 and "dev-stdin" not in transports else b""
+                sp = os.path.join(d, "stdin.bin")
+                with open(sp, "wb") as f:
+                    f.write(hdr + stdin)
+                stdin_file = open(sp, "rb")
+                stdin_file.seek(len(hdr))
+                transports.append("stdin:file@%d" % len(hdr))
+                r = subprocess.run(argv, stdin=stdin_file, capture_output=True, timeout=60)
+            else:
+                transports.append("stdin:pipe")
+                r = subprocess.run(argv, input=stdin, capture_output=True, timeout=60)
         except subprocess.TimeoutExpired:
             return {"inconclusive": "watchdog", "id": spec["id"]}
         except ValueError as e:  # embedded NUL in argv
             return {"skipped": str(e), "id": spec["id"]}
+        finally:
+            if stdin_file:
+                stdin_file.close()
+            for fifo, th in writers:
+                # release a writer nobody listened to (jp never opened the file: --ast, an earlier error)
+                try:
+                    fd = os.open(fifo, os.O_RDONLY | os.O_NONBLOCK)
+                    th.join(2)
+                    os.close(fd)
+                except OSError:
+                    pass
+                th.join(2)
         exp = spec["expect"]
         out = {"id": spec["id"], "rc": r.returncode}
-        w = {"argv": spec["argv"], "stdin_hex": spec["stdin_hex"][:200], "files": {k: v[:200] for k, v in spec["files"].items()}, "exit": r.returncode,
+        w = {"argv": spec["argv"], "transports": transports, "stdin_hex": spec["stdin_hex"][:200], "files": {k: v[:200] for k, v in spec["files"].items()}, "exit": r.returncode,
              "stdout": r.stdout.decode("utf-8", "replace")[:600], "stderr": r.stderr.decode("utf-8", "replace")[:600], "expected": exp}
         err = r.stderr.decode("utf-8", "replace")
         if r.returncode == 101 or r.returncode < 0 or "panicked at" in err:
@@ -44,6 +113,7 @@ def run_one(jp, spec, base):
                 out["violation"] = ("C18/stderr-not-empty-on-success", w)
             else:
                 out["kind"] = "success/%s%s" % ("ast" if spec["ast"] else exp.get("result_type", "?"), "/unquoted" if spec["unquoted"] else "")
+                out["transports"] = transports
         else:
             if r.returncode == 0:
                 out["violation"] = ("C18/failure-exits-zero/%s" % exp["why"].replace(" ", "-"), w)
@@ -112,6 +182,9 @@ def main():
                     bad.append({"signature": r["violation"][0], "witness": r["violation"][1]})
             else:
                 stats[r["kind"]] = stats.get(r["kind"], 0) + 1
+                for tr in r.get("transports", []):
+                    k = "transport/" + tr.split("@")[0] + ("@offset" if "@" in tr and not tr.endswith("@0") else "")
+                    stats[k] = stats.get(k, 0) + 1
                 if len(samples) < 6 and len([s for s in samples if s["kind"] == r["kind"]]) == 0:
                     samples.append({"kind": r["kind"], "argv": spec["argv"], "exit": r["rc"]})
     for r in strace_ast(jp, base, 6):
